@@ -455,7 +455,9 @@ sposLineText(Buffer buf, SrcPos spos)
 	if (fnameIsStdin(fname))
 		return -1;
 
-	f = fileRdOpen(fname);
+	/* The file named by a #line directive need not exist here. */
+	f = fileTryOpen(fname, osIoRdMode);
+	if (!f) return -1;
 
 	/* Are we continuing from where we last were? */
 	if (lastfname && fnameEqual(lastfname, fname) && lastlno <= lno)
